@@ -3,6 +3,7 @@
    expr     :=  '(' 'C' idx arg* ')'          call entry point idx (index table Gen/PropLib.index.json)
    arg      :=  'P'hex                        a pattern argument
              |  '(' 'S' (id'='hex)* ')'       an instantiation map (insertion order)
+             |  'V'n                          an element variable (EVar n)
              |  expr                          a premise thunk built by another entry point
              |  '(' 'A' hex ')'               a premise thunk loading the declared assumption `hex`
    answer   :=  'OK' conc-hex md5(trace) size replayed-conc-hex|'-' uses_only  |  'NONE'  |  'BAD' *)
@@ -74,6 +75,8 @@ let rec parse_expr toks : thunk * string list =
       let i = int_of_string idx in
       let rec args acc toks = match toks with
         | ")" :: rest -> (List.rev acc, rest)
+        | tok :: rest when String.length tok >= 2 && tok.[0] = 'V' ->
+            args (AVar (n_of_int (int_of_string (String.sub tok 1 (String.length tok - 1)))) :: acc) rest
         | "(" :: "S" :: rest ->
             let rec items acc2 toks = match toks with
               | ")" :: rest -> (List.rev acc2, rest)
@@ -111,7 +114,8 @@ let trace_string t =
          List.iteri (fun k (id, p) ->
            if k > 0 then Buffer.add_char buf ',';
            Buffer.add_string buf (string_of_int (int_of_n id)); Buffer.add_char buf '='; enc_buf buf p) d
-     | RLoad a -> Buffer.add_string buf "L:"; enc_buf buf a);
+     | RLoad a -> Buffer.add_string buf "L:"; enc_buf buf a
+     | RGen x -> Buffer.add_string buf "G:"; Buffer.add_string buf (string_of_int (int_of_n x)));
     Buffer.add_char buf ' ') (trace t);
   Buffer.contents buf
 
@@ -122,8 +126,8 @@ let run line =
   match t with
   | None -> "NONE"
   | Some (tm, c) ->
-      let axs = tautology_axioms @ List.rev !assumed in
-      let replay = match static_conc axs tm with Some c' -> show c' | None -> "-" in
+      let axs = all_class_axioms @ List.rev !assumed in
+      let replay = match static_conc true axs tm with Some c' -> show c' | None -> "-" in
       Printf.sprintf "OK %s %s %d %s %s" (show c) (Digest.to_hex (Digest.string (trace_string tm)))
         (int_of_n (psize tm)) replay (if uses_only axs tm then "1" else "0")
 
